@@ -223,7 +223,15 @@ class HttpWebServerPlugin(HttpProtocolHandlerPlugin):
                 )
             self.pipeline_request.parse(raw)
             if self.pipeline_request.is_complete:
-                self.route.handle_request(self.pipeline_request)
+                # Follow-up request may name a different route
+                # than the 1st request on this connection.
+                route = self._match_route(self.pipeline_request.path or b'/')
+                if route is None:
+                    self.client.queue(NOT_FOUND_RESPONSE_PKT)
+                    raise HttpProtocolException(
+                        'No route found for pipelined request, will tear down request...',
+                    )
+                route.handle_request(self.pipeline_request)
                 if not self.pipeline_request.is_http_1_1_keep_alive:
                     raise HttpProtocolException(
                         'Pipelined request is not keep-alive, will tear down request...',
@@ -295,6 +303,13 @@ class HttpWebServerPlugin(HttpProtocolHandlerPlugin):
             else httpProtocolTypes.HTTPS \
             if self.encryption_enabled() \
             else httpProtocolTypes.HTTP
+
+    def _match_route(self, path: bytes) -> Optional[HttpWebServerBasePlugin]:
+        _, protocol = self._protocol
+        for route in self.routes[protocol]:
+            if route.match(text_(path)):
+                return self.routes[protocol][route]
+        return None
 
     def _try_route(self, path: bytes) -> bool:
         do_ws_upgrade, protocol = self._protocol
